@@ -34,7 +34,7 @@ pub struct Case {
 pub struct C10;
 
 const CAPACITIES: [usize; 6] = [1, 2, 3, 5, 16, 8192];
-const ALPHABET: [&str; 10] = ["a", "b", "é", "€", "😀", " ", "x", "\r", "1", ";"];
+const ALPHABET: [&str; 17] = ["a", "b", "é", "€", "😀", " ", "x", "\r", "1", ";", "\u{feff}", "\u{2028}", "\u{85}", "\0", "\u{c}", "\u{b}", "\t"];
 
 fn boundaries(case: &Case) -> Vec<usize> {
     let mut inner: Vec<usize> = case.polls.iter().copied().filter(|p| *p > 0 && *p < case.content.len()).collect();
@@ -226,6 +226,10 @@ impl Property for C10 {
     fn generate(&self, t: &mut Tape, ctx: &Ctx) -> Case {
         let nlines = t.draw(9);
         let mut content = String::new();
+        if t.chance(1, 8) {
+            // a byte order mark (or another character some readers treat specially) at the very start
+            content.push_str(*t.pick(&["\u{feff}", "\u{feff}\u{feff}", "\u{fffe}", "\u{2028}", "\0"]));
+        }
         for _ in 0..nlines {
             let len = match t.draw(6) {
                 0 => 0,
